@@ -37,6 +37,9 @@ func ConcatStreams[T any](streams ...Stream[T]) Stream[T] {
 }
 
 func (cp *concatProvider[T]) open(ctx context.Context, b *unsafeProviderBuilder) error {
+	// Forget the inner stream of an earlier materialization (left behind by an early stop or a failure): it is closed
+	cp.currProviderFunc = nil
+
 	// Open the steam of streams
 	outer, err := openSubStreamUnsafe[Stream[T]](ctx, b, 0)
 	if err != nil {
